@@ -15,8 +15,9 @@ Import ListNotations.
 Open Scope N_scope.
 
 (* For EVERY well-formed operation history (any number of create / append / multi-append /
-   delete_files / expire / delete_snapshot commits and rolled-back transactions, any number of files,
-   any contents), EVERY prefix
+   delete_files / expire / delete_snapshot commits, rolled-back transactions, and transactions whose
+   append FAILED with an OS error at any durability call of the marker's or the data file's publish
+   (temp creation, write, fsync, rename) and were rolled back; any number of files, any contents), EVERY prefix
    of its OS-call trace and EVERY power-loss outcome: if a pointer survives and names version v, then
    every file reachable from v is durably present with exactly its intended content (and that is also
    what running processes saw under that name) -- not missing, not empty, not partial. *)
@@ -31,7 +32,8 @@ Print Assumptions C16_durable_prefix.
 
 (* Once the last call of a commit's pointer publish has returned (the commit is acknowledged), and
    for as long as no later commit advances the pointer -- through the cleanup of its markers and
-   through any number of later transactions that are rolled back -- every power-loss outcome has the
+   through any number of later transactions that are rolled back, voluntarily or because a durability
+   call of an append failed with an OS error (is_abort: OAbort and OFail) -- every power-loss outcome has the
    pointer naming that commit's metadata file (whose reachable files are whole by C16_durable_prefix). *)
 Theorem C16_acked_durable : forall ops c rest, forallb is_abort rest = true ->
   wf (ops ++ OCommit c :: rest) = true ->
@@ -86,15 +88,19 @@ Definition ex_append : commit :=
            (mkPub (P 1 8) [Raw 1587; Ref (P 4 7)]) [Raw 25; Ref (P 1 8)].
 (* ... and a transaction that wrote one data file and was rolled back *)
 Definition ex_abort : list item := [mkItem (mkPub (P 2 9) [Raw 51]) (mkPub (P 3 10) [Raw 700])].
-Definition ex_ops := [OCommit ex_create; OCommit ex_append; OAbort ex_abort].
+(* ... and a transaction whose data file's fsync failed (marker published, Create, Write, fsync raises,
+   temp removed, marker removed) *)
+Definition ex_fail : op := OFail [] (mkPub (P 2 11) [Raw 51]) (Some (mkPub (P 3 12) [Raw 700])) 2.
+Definition ex_ops := [OCommit ex_create; OCommit ex_append; OAbort ex_abort; ex_fail].
 
-(* a schedule: all calls up to and including the pointer's Rename of the second commit (49 of 65
+(* a schedule: all calls up to and including the pointer's Rename of the second commit (49 of 74
    calls), with that rename written back early and nothing else *)
 Definition ex_sched : list event := map Call (firstn 49 (trace_of ex_ops)) ++ [Bg (PEntry PTR)].
 
 Example C16_nonvacuous :
   wf ex_ops = true
-  /\ length (trace_of ex_ops) = 65%nat
+  /\ length (trace_of ex_ops) = 74%nat
+  /\ trace_of [ex_fail] = publish_meta (P 2 11) [Raw 51] ++ [Create (T 3 12); Write (T 3 12) [Raw 700]; Unlink (T 3 12); Unlink (P 2 11)]
   /\ calls_of ex_sched = firstn 49 (trace_of ex_ops)
   /\ (exists s', run fs0 ex_sched = Some s'
         /\ pointer (power_loss s') = Some (P 1 8)              (* the NEW version survived, early *)
@@ -102,7 +108,7 @@ Example C16_nonvacuous :
         /\ content_at (power_loss s') (P 4 7) = Some [Raw 829; Ref (P 4 5)])
   /\ reachable_from ex_ops (P 1 8) (P 3 3).
 Proof.
-  split; [vm_compute; reflexivity|]. split; [vm_compute; reflexivity|]. split; [vm_compute; reflexivity|].
+  split; [vm_compute; reflexivity|]. split; [vm_compute; reflexivity|]. split; [vm_compute; reflexivity|]. split; [vm_compute; reflexivity|].
   split.
   - eexists. split; [vm_compute; reflexivity|]. vm_compute. auto.
   - eapply reach_step; [eapply reach_step; [eapply reach_step; [apply reach_self|]|]|].
